@@ -71,7 +71,7 @@ def run_case(case: dict) -> dict:
             obs["budget_exhausted"] += 1
             continue
         obs["quiescent_runs"] += 1
-        v = oracles.quiescence_check(run, "C05", spec)
+        v = oracles.attribute(oracles.quiescence_check(run, "C05", spec), run, "C05")
         for x in v:
             x["spec"] = spec["name"]
         violations += v
